@@ -90,6 +90,7 @@ class Gen:
         self.maxc = maxc
         self.acts = [list(a) for a in acts]     # [name, "hold" | "fail"]
         self.kept = {}                          # activatable name -> clients predicted to have a message kept
+        self.departed = []                      # unique names of clients that have left
         self.events = []
         self.serial = rawbus_gen_lo()
         self.live = {}        # c -> predicted unique name or None
@@ -112,6 +113,8 @@ class Gen:
 
     def disconnect(self, c):
         self.events.append("D.%d" % c)
+        if self.live.get(c):
+            self.departed.append(self.live[c])
         self.live.pop(c, None)
         self.monitors.discard(c)
         for n in [n for n, o in self.wk.items() if o == c]:
@@ -185,8 +188,26 @@ class Gen:
             self.wk[name] = c
             self.kept.pop(name, None)
 
+    def release_name(self, c, name, level=0):
+        self.driver_call(c, "ReleaseName", "s", (name,), level=level)
+
+    def colon_name(self, c):
+        """a name beginning with ':': somebody else's (live), one's own, a departed one, a never minted one"""
+        rnd = self.rnd
+        others = [n for k, n in self.live.items() if n and k != c]
+        r = rnd.random()
+        if r < 0.45 and others:
+            return rnd.choice(others)
+        if r < 0.6 and self.live.get(c):
+            return self.live[c]
+        if r < 0.8 and self.departed:
+            return rnd.choice(self.departed)
+        return rnd.choice([":1.%d" % (self.minted + rnd.randrange(3)), ":2.0", ":1.999", ":x.y"])
+
     def pick_dest(self, c):
         rnd = self.rnd
+        if self.departed and rnd.random() < 0.08:
+            return rnd.choice(self.departed)
         names = [n for k, n in self.live.items() if n and k not in self.monitors]
         if self.acts and rnd.random() < 0.22:
             return rnd.choice(self.acts)[0]
@@ -272,8 +293,19 @@ def gen_history(rnd, length):
             if g.acts and (rnd.random() < 0.5 or any(g.kept.values())):
                 kept = [n for n, cs in g.kept.items() if cs]
                 g.request_name(c, rnd.choice(kept or ["t.A1", "t.A2"]), 4, level=rnd.choice((0, 1)))
+            elif rnd.random() < 0.6:
+                # other connections' unique names: all flag combinations, release, queries
+                k = rnd.random()
+                if k < 0.55:
+                    g.request_name(c, g.colon_name(c), rnd.randrange(8), level=rnd.choice((0, 0, 1)))
+                elif k < 0.7:
+                    g.release_name(c, g.colon_name(c), level=rnd.choice((0, 1)))
+                elif k < 0.85:
+                    g.driver_call(c, "GetNameOwner", "s", (g.colon_name(c),))
+                else:
+                    g.driver_call(c, "ListQueuedOwners", "s", (g.colon_name(c),))
             else:
-                g.request_name(c, rnd.choice(["t.N1", "t.N2", ":1.%d" % (g.minted + rnd.randrange(3)), ":1.0", ":2.0"]), rnd.choice((0, 0, 4)), level=rnd.choice((0, 1)))
+                g.request_name(c, rnd.choice(["t.N1", "t.N2"]), rnd.choice((0, 0, 4)), level=rnd.choice((0, 1)))
         elif r < 0.42:
             g.add_match(c, rnd.choice([OBS_RULE, "type='signal',interface='t.I'", "eavesdrop='true'", "sender='%s'" % BUS]))
         elif r < 0.45:
@@ -441,6 +473,41 @@ def scenarios():
         g.act_fail("t.F1")
         g.send(3, build(True, METHOD_CALL, 1, g.next_serial(), call("t.F1")))
         g.act_fail("t.F1")
+    def squat(g):
+        # nobody gets at somebody else's unique name, whatever the flags, whatever happens to its holder
+        for c in (2, 3, 4):
+            g.connect(c)
+            g.hello(c)
+        a = g.live[2]
+        for flags in range(8):
+            g.request_name(3, a, flags)
+        g.request_name(2, a, 1)                 # the holder itself, ALLOW_REPLACEMENT
+        g.request_name(3, a, 2)                 # REPLACE_EXISTING
+        g.request_name(3, g.live[3], 0)
+        g.release_name(3, a)
+        g.release_name(2, a)
+        g.driver_call(4, "GetNameOwner", "s", (a,))
+        g.driver_call(4, "ListQueuedOwners", "s", (a,))
+        g.send(4, build(True, METHOD_CALL, 1, g.next_serial(), call(a)))
+        g.disconnect(2)
+        g.driver_call(4, "GetNameOwner", "s", (a,))
+        g.driver_call(4, "ListQueuedOwners", "s", (a,))
+        g.send(4, build(True, METHOD_CALL, 1, g.next_serial(), call(a)))
+        g.send(4, build(False, SIGNAL, 0, g.next_serial(), call(a), extra=[(0, F_SENDER, Variant("s", a))]))
+        for flags in (0, 1, 2, 4, 7):
+            g.request_name(3, a, flags)
+        g.release_name(3, a)
+        g.connect(2)
+        g.hello(2)
+        g.request_name(2, a, 0)
+        g.send(4, build(True, METHOD_CALL, 1, g.next_serial(), call(a)))
+        g.request_name(4, ":1.%d" % g.minted, 0)
+        g.connect(5)
+        g.hello(5)
+        g.driver_call(4, "GetNameOwner", "s", (g.live[5],))
+    mk("squat", squat)
+    mk("squat-monitor", squat, monitor=True)
+
     mk("start-fails", fail, acts=ACTS)
     mk("start-fails-monitor", fail, monitor=True, acts=ACTS)
     return out
